@@ -45,7 +45,16 @@ func ConstraintErrorAddPathSegment(err error, pathSegment string) error {
 	if errors.As(err, &c) {
 		return c.AddPathSegment(pathSegment)
 	}
-	return err
+	if err == nil {
+		return nil
+	}
+	// An error that is not a constraint error (a failed conversion of a leaf, for example) would
+	// otherwise travel upwards without any path; wrap it so that the offending element is named.
+	return &ConstraintError{
+		Message: "Invalid value",
+		Path:    []string{pathSegment},
+		Cause:   err,
+	}
 }
 
 // NoSuchStepError indicates that the given step is not supported by the plugin.
